@@ -590,3 +590,12 @@ Definition alg_solve (s : settings) (o : opd) (right : cols) (left : option (nat
     end.
 
 End Alg.
+
+(* a SECOND solve on the same operator object.  Solve.forward rebuilds the operator from its representation
+   tree on every call, so factorisations cached on the original object are not reused; only a class with its own
+   `solve` keeps its cache: LowRankRootAddedDiag (chol_cap_mat) — no event the second time *)
+Definition method_events_again (s : settings) (obs rbs bb : seq nat) (cc : nat) (c : cls) (m : method) : seq event :=
+  match m with
+  | MWoodbury _ => [::]
+  | _ => method_events s obs rbs bb cc c m
+  end.
